@@ -34,6 +34,7 @@ type solveOpts struct {
 	keepFiles bool
 	allAgree  bool // thorough: run all solvers and require no contradiction
 	noRetry   bool
+	patient   func(id string) bool // obligations known to be slow on the unchanged tree: third attempt
 	seed      int
 }
 
@@ -318,29 +319,38 @@ func dischargeAll(obls []*Obligation, opt *solveOpts) {
 	}
 	close(ch)
 	wg.Wait()
-	// obligations that ran out of time while all workers were busy get further, sequential attempts with
-	// three and then nine times the time: a slow but stable proof must not become an alarm under load
-	// (a candidate model of the relaxed query kept after a timeout counts as a timeout here)
+	// Obligations that ran out of time while all workers were busy get a second, sequential attempt with
+	// three times the time: a slow but stable proof must not become an alarm under load. An obligation that
+	// is left with a candidate model of the relaxed query after a timeout counts as timed out too, but only
+	// when there are few of them (many open obligations are a broken proof, not load). Obligations that the
+	// property lists as slow on the unchanged tree ("patient") get a third attempt with nine times the time.
 	if !opt.noRetry {
+		open := func(o *Obligation) bool {
+			return (o.Verdict == "timeout" || (o.TimedOut && o.Verdict == "sat-relaxed")) && !o.Cover
+		}
 		for _, factor := range []float64{3, 9} {
 			ropt := *opt
 			ropt.timeout = opt.timeout * factor
 			ropt.fast = opt.fast * factor
 			ropt.noRetry = true
-			pendingN := 0
+			nRelaxed := 0
 			for _, o := range obls {
-				if (o.Verdict == "timeout" || (o.TimedOut && o.Verdict == "sat-relaxed")) && !o.Cover {
-					pendingN++
+				if open(o) && o.Verdict == "sat-relaxed" {
+					nRelaxed++
 				}
-			}
-			if factor > 3 && pendingN > 3 {
-				break // many open obligations are a broken proof, not load: do not spend minutes on them
 			}
 			for i, o := range obls {
-				if (o.Verdict == "timeout" || (o.TimedOut && o.Verdict == "sat-relaxed")) && !o.Cover {
-					o.Verdict, o.Raw, o.Solver, o.Relaxed, o.TimedOut = "", "", "", false, false
-					discharge(o, &ropt, i)
+				if !open(o) {
+					continue
 				}
+				if o.Verdict == "sat-relaxed" && nRelaxed > 3 {
+					continue
+				}
+				if factor > 3 && (opt.patient == nil || !opt.patient(o.ID)) {
+					continue
+				}
+				o.Verdict, o.Raw, o.Solver, o.Relaxed, o.TimedOut = "", "", "", false, false
+				discharge(o, &ropt, i)
 			}
 		}
 	}
